@@ -110,6 +110,12 @@ def pat_alts(pat):
     return [pat]
 
 
+def n_alts(match):
+    """Number of pattern alternatives of a match, or-patterns flattened: the measure that finder predicates use instead of
+    the number of arms, so that merging arms with `|` (or splitting them) does not lose the anchor."""
+    return sum(len(pat_alts(a["pat"])) for a in match["arms"])
+
+
 def strip_ref(pat):
     while pat.get("k") in ("Ref", "Box", "Deref"):
         pat = pat["p"]
@@ -222,7 +228,7 @@ def find_match(body, scrut_pred=None, arm_pred=None, min_arms=1, all_matches=Fal
     for m in matches(body["hir"], msrc=None):
         if m.get("msrc") not in ("Normal",):
             continue
-        if len(m["arms"]) < min_arms:
+        if n_alts(m) < min_arms:
             continue
         if scrut_pred is not None and not scrut_pred(m["scrut"]):
             continue
